@@ -424,7 +424,16 @@ func (r *byzResult) judge(o *common.Outcome, p byzPlan) {
 	o.Nontrivial = true
 	o.Fault("byzantine-" + pr + "-" + bvNames[p.variant])
 	what := p.String()
-	if h.hsOK && !p.validFor() {
+	if h.hsOK && p.variant == bvCertSigOther {
+		// Not a violation of the statement (weaker reading): the X.509 self-signature is redundant for
+		// authentication — the libp2p extension binds M's identity key to the certificate key and TLS'
+		// CertificateVerify proves possession of the certificate key; the honest side reports M, which is
+		// right. (The libp2p TLS specification asks endpoints to abort when "the certificate's self-signature
+		// is not valid"; PubKeyFromCertChain's cert.Verify with the certificate as its own root does not check
+		// it. Counted, reported to the lead, not failed.)
+		o.Probe("tls-invalid-self-signature-accepted")
+		judgeAuth(o, h, what)
+	} else if h.hsOK && !p.validFor() {
 		class := "C01/forged-credential-accepted/" + pr + "/" + rl + "/" + bvNames[p.variant]
 		switch p.variant {
 		case bvChain2, bvChain0:
@@ -432,7 +441,11 @@ func (r *byzResult) judge(o *common.Outcome, p byzPlan) {
 			// received"; PubKeyFromCertChain documents the same ("expected one certificates in the chain")
 			class = "C01/tls-chain-length-accepted/" + rl + "/" + bvNames[p.variant]
 		}
-		o.Violate(class, "%s: the honest side completed the handshake and reports remote peer %s; Mallory holds no key that the presented credential is valid for", what, nameOf(h.rPeer))
+		why := "Mallory holds no key that the presented credential is valid for"
+		if p.variant == bvChain2 || p.variant == bvChain0 {
+			why = "the certificate chain does not consist of exactly one certificate"
+		}
+		o.Violate(class, "%s: the honest side completed the handshake and reports remote peer %s; %s", what, nameOf(h.rPeer), why)
 	}
 	if h.hsOK && p.validFor() {
 		judgeAuth(o, h, what)
